@@ -10,7 +10,7 @@ only = sys.argv[1:]
 sh('git', '-C', '/repo', 'worktree', 'remove', '--force', WT); sh('rm', '-rf', WT)
 assert sh('git', '-C', '/repo', 'worktree', 'add', WT, 'HEAD').returncode == 0
 sh('cp', '/repo/Cargo.lock', WT + '/Cargo.lock')
-env = dict(os.environ, VERIF_REPO=WT)
+env = dict(os.environ, VERIF_REPO=WT, VERIF_SKIP_PROOFS='1')
 for d in sorted(glob.glob(os.path.join(V, 'seeded', '*'))):
     name = os.path.basename(d)
     if only and name not in only: continue
